@@ -5,7 +5,8 @@ for each function in tables/condition_terms.json the set of *leaves* its path co
 self or a parameter, crate-local functions, and external functions that are an information source of their own (locks, clocks, zero-argument calls);
 never constants, operators, local names, or pure library adaptors such as unwrap_or / min / len / is_empty -- must be a subset of the reviewed
 vocabulary recorded there.  A new leaf is a new kind of condition and is reported as unreviewed; changed bounds on known leaves are the business of
-the specific rules."""
+the specific rules.  (The converse -- a reviewed leaf that disappeared -- is NOT reported: rewriting a guarded accumulator as an iterator
+chain moves its conditions into library adaptors, and three neutral edits showed that as a false alarm.)"""
 import json
 import os
 import re
